@@ -72,71 +72,85 @@ inductive Cmd
   | bar
   deriving Repr, Inhabited
 
-/-! ### canonical spelling -/
+/-! ### canonical spelling (as bytes; `render` is the same text as a `String`) -/
 
-def hexDigits : Nat → Nat → List Char
+/-- digits of `n` in base `base`, most significant first (`[0]` for 0); the first argument is
+recursion fuel, `n + 1` always suffices -/
+def natDigits (base : Nat) : Nat → Nat → List Nat
   | 0, _ => []
-  | fuel + 1, n =>
-    let d := n % 16
-    let c := if d < 10 then Char.ofNat (48 + d) else Char.ofNat (87 + d)
-    if n < 16 then [c] else hexDigits fuel (n / 16) ++ [c]
+  | fuel + 1, n => if n < base then [n] else natDigits base fuel (n / base) ++ [n % base]
 
-def Num.render (n : Num) : String :=
-  if n.hex then
-    "$" ++ (if n.v < 0 then "-" else "") ++ String.ofList (hexDigits 20 n.v.natAbs)
-  else toString n.v
+/-- ASCII character of a digit value (lower-case letters above 9) -/
+def digitChar (d : Nat) : Nat := if d < 10 then 48 + d else 87 + d
 
-def dotsStr (k : Nat) : String := String.ofList (List.replicate k '.')
+/-- `n` written in base `base` -/
+def renderNat (base n : Nat) : List Nat := (natDigits base (n + 1) n).map digitChar
 
-def Dur.render : Dur → String
-  | .dflt k => dotsStr k
-  | .len n k => n.render ++ dotsStr k
-  | .frames n k => ":" ++ n.render ++ dotsStr k
+def Num.bytes (n : Num) : List Nat :=
+  (if n.hex then [36] else []) ++ (if n.v < 0 then [45] else []) ++ renderNat (if n.hex then 16 else 10) n.v.natAbs
 
-def Acc.render : Acc → String
-  | .none => "" | .sharp => "+" | .flat => "-" | .natural => "="
+def dotsBytes (k : Nat) : List Nat := List.replicate k 46
 
-def letterChar (l : Nat) : String := String.ofList [Char.ofNat (97 + l % 8)]
+def Dur.bytes : Dur → List Nat
+  | .dflt k => dotsBytes k
+  | .len n k => n.bytes ++ dotsBytes k
+  | .frames n k => 58 :: n.bytes ++ dotsBytes k
 
-def Simple.spelling : Simple → String
-  | .loopStart => "[" | .loopBreak => "/" | .loopEnd => "]" | .segno => "L" | .call => "*"
-  | .ins => "@" | .vol => "v" | .volDown => "(" | .volUp => ")" | .volFine => "V"
-  | .volFineUp => "V+" | .volFineDown => "V-" | .pan => "p" | .transpose => "_"
-  | .transposeRel => "__" | .kTranspose => "k" | .detune => "K" | .env => "E" | .pitchEnv => "M"
-  | .panEnv => "P" | .porta => "G" | .tempoBpm => "t" | .tempo => "T" | .platform => "%"
+def Acc.bytes : Acc → List Nat
+  | .none => [] | .sharp => [43] | .flat => [45] | .natural => [61]
 
-def optNum : Option Num → String
-  | none => ""
-  | some n => n.render
+def letterByte (l : Nat) : Nat := 97 + l % 8
 
-def modGroup (g : Int × List Nat) : String :=
-  (if g.1 > 0 then "+" else if g.1 < 0 then "-" else "=") ++ String.join (g.2.map letterChar)
+def Simple.spellingBytes : Simple → List Nat
+  | .loopStart => [91] | .loopBreak => [47] | .loopEnd => [93] | .segno => [76] | .call => [42]
+  | .ins => [64] | .vol => [118] | .volDown => [40] | .volUp => [41] | .volFine => [86]
+  | .volFineUp => [86, 43] | .volFineDown => [86, 45] | .pan => [112] | .transpose => [95]
+  | .transposeRel => [95, 95] | .kTranspose => [107] | .detune => [75] | .env => [69] | .pitchEnv => [77]
+  | .panEnv => [80] | .porta => [71] | .tempoBpm => [116] | .tempo => [84] | .platform => [37]
 
-def Cmd.render : Cmd → String
-  | .note l a d => letterChar l ++ a.render ++ d.render
-  | .rest d => "r" ++ d.render
-  | .tie d => "^" ++ d.render
-  | .slur => "&"
-  | .octave n => "o" ++ n.render
-  | .octUp => ">"
-  | .octDown => "<"
-  | .length d => "l" ++ d.render
-  | .quantize n => "Q" ++ n.render
-  | .early n => "q" ++ n.render
-  | .revRest d => "R" ++ d.render
-  | .grace l a d => "~" ++ letterChar l ++ a.render ++ d.render
-  | .measure n => "C" ++ n.render
-  | .shuffle n => "s" ++ n.render
-  | .echoSet dl v => "\\=" ++ dl.render ++ "," ++ v.render
-  | .echo d => "\\" ++ d.render
-  | .keyScale name => "_{" ++ name ++ "}"
-  | .keyMod gs => "_{" ++ String.join (gs.map modGroup) ++ "}"
-  | .drum n => "D" ++ n.render
-  | .simple s n => s.spelling ++ optNum n
-  | .bar => "|"
+def optNumBytes : Option Num → List Nat
+  | none => []
+  | some n => n.bytes
 
-/-- the canonical line for track `A`: commands separated by single spaces -/
-def render (cmds : List Cmd) : String := "A " ++ " ".intercalate (cmds.map Cmd.render)
+def modGroupBytes (g : Int × List Nat) : List Nat :=
+  (if g.1 > 0 then 43 else if g.1 < 0 then 45 else 61) :: g.2.map letterByte
+
+def nameBytes (s : String) : List Nat := s.toList.map Char.toNat
+
+def Cmd.bytes : Cmd → List Nat
+  | .note l a d => letterByte l :: a.bytes ++ d.bytes
+  | .rest d => 114 :: d.bytes
+  | .tie d => 94 :: d.bytes
+  | .slur => [38]
+  | .octave n => 111 :: n.bytes
+  | .octUp => [62]
+  | .octDown => [60]
+  | .length d => 108 :: d.bytes
+  | .quantize n => 81 :: n.bytes
+  | .early n => 113 :: n.bytes
+  | .revRest d => 82 :: d.bytes
+  | .grace l a d => 126 :: letterByte l :: a.bytes ++ d.bytes
+  | .measure n => 67 :: n.bytes
+  | .shuffle n => 115 :: n.bytes
+  | .echoSet dl v => 92 :: 61 :: dl.bytes ++ 44 :: v.bytes
+  | .echo d => 92 :: d.bytes
+  | .keyScale name => 95 :: 123 :: nameBytes name ++ [125]
+  | .keyMod gs => 95 :: 123 :: (gs.map modGroupBytes).flatten ++ [125]
+  | .drum n => 68 :: n.bytes
+  | .simple s n => s.spellingBytes ++ optNumBytes n
+  | .bar => [124]
+
+/-- the commands separated by single spaces -/
+def bodyBytes : List Cmd → List Nat
+  | [] => []
+  | [c] => c.bytes
+  | c :: cs => c.bytes ++ 32 :: bodyBytes cs
+
+/-- the canonical line for track `A` -/
+def renderBytes (cmds : List Cmd) : List Nat := 65 :: 32 :: bodyBytes cmds
+
+def Cmd.render (c : Cmd) : String := String.ofList (c.bytes.map Char.ofNat)
+def render (cmds : List Cmd) : String := String.ofList ((renderBytes cmds).map Char.ofNat)
 
 /-! ### denotation -/
 
